@@ -859,7 +859,12 @@ class Class(CanContainImportsDocumentable):
         elif name in self._localNameToFullName_map:
             return self._localNameToFullName_map[name]
         else:
-            return self.parent._localNameToFullName(name)
+            # A name that the class body does not bind is a global for Python:
+            # the scopes of enclosing classes are skipped.
+            scope = self.parent
+            while isinstance(scope, Class) and isinstance(scope.parent, CanContainImportsDocumentable):
+                scope = scope.parent
+            return scope._localNameToFullName(name)
 
     @property
     def constructor_params(self) -> Mapping[str, Optional[ast.expr]]:
